@@ -326,27 +326,36 @@ Section TreeProofs.
 End TreeProofs.
 
 (* ---------------------------------------------------------------------------------------------- *)
-(* the parent walk of GetNodeTransformToGlobal *)
+(* the parent walk of GetNodeTransformToGlobal, with its visited set: total for EVERY node graph *)
 Section ParentProofs.
   Variable nc : list (option (list N)).
 
-  (* a set of blocks closed under "has a parent in the set": the walk never leaves it *)
-  Theorem to_global_diverges (C : list N) :
-    (forall p, In p C -> exists q, rb_get_parent_node nc p = Some q /\ In q C) ->
-    forall fuel i steps, In i C -> rb_to_global nc fuel i steps = OutOfFuel.
+  Lemma rb_first_parent_range i : forall l j q, rb_first_parent i j l = Some q -> j <= q < j + vlen l.
   Proof.
-    intros Hc. induction fuel as [|f IH]; intros i steps Hi; [reflexivity|].
-    cbn [rb_to_global]. destruct (Hc i Hi) as (q & -> & Hq). apply IH. exact Hq.
+    induction l as [|o l IH]; intros j q H; cbn [rb_first_parent] in H; [discriminate|].
+    rewrite vlen_cons. destruct o as [ch|].
+    - destruct (rb_mem i ch); [inversion H; subst; lia|]. apply IH in H. lia.
+    - apply IH in H. lia.
   Qed.
 
-  (* a rank that decreases along the parent relation bounds the walk *)
-  Theorem to_global_total (rank : N -> nat) :
-    (forall i q, rb_get_parent_node nc i = Some q -> (rank q < rank i)%nat) ->
-    forall fuel i steps, (rank i < fuel)%nat -> exists k, rb_to_global nc fuel i steps = Ok k.
+  Lemma rb_get_parent_node_lt i q : rb_get_parent_node nc i = Some q -> q < vlen nc.
+  Proof. unfold rb_get_parent_node. intros H. apply rb_first_parent_range in H. lia. Qed.
+
+  Theorem to_global_total : forall fuel i visited,
+    tree_inv (vlen nc) visited -> (N.to_nat (vlen nc) - length visited < fuel)%nat ->
+    exists k, rb_to_global nc fuel i visited = Ok k.
   Proof.
-    intros Hr. induction fuel as [|f IH]; intros i steps Hf; [lia|].
-    cbn [rb_to_global]. destruct (rb_get_parent_node nc i) as [q|] eqn:E; [|eauto].
-    apply IH. specialize (Hr i q E). lia.
+    induction fuel as [|f IH]; intros i visited Hinv Hf; [lia|].
+    cbn [rb_to_global]. destruct (rb_get_parent_node nc i) as [p|] eqn:E; [|eauto].
+    destruct (rb_mem p visited) eqn:M; [eauto|].
+    assert (Hinv1 : tree_inv (vlen nc) (visited ++ [p])).
+    { destruct Hinv as [Hnd Hall]. split.
+      - apply (Permutation_NoDup (l := p :: visited)); [apply Permutation_cons_append|].
+        constructor; [|exact Hnd]. intros Hin. apply rb_mem_in in Hin. congruence.
+      - apply Forall_app. split; [exact Hall|]. constructor; [|constructor].
+        eapply rb_get_parent_node_lt; eauto. }
+    pose proof (tree_inv_len _ _ Hinv1) as Hlen. rewrite app_length in Hlen. cbn in Hlen.
+    apply IH; [exact Hinv1|]. rewrite app_length. cbn. lia.
   Qed.
 
   Lemma rb_pclosed_ok_sound C : rb_pclosed_ok nc C = true ->
